@@ -29,6 +29,7 @@ class TaskScenario(ScenarioData):
         self._lastBookedSlot: Optional[int] = None
         self._slotUsedBefore: float = 0.0
         self._offsetSlotIdx: Optional[int] = None
+        self._lastBookedResources: list[Any] = []
 
         # Ensure required attributes exist
         required_attrs = [
@@ -875,22 +876,28 @@ class TaskScenario(ScenarioData):
 
         # Release unused portion of the slot back to the resource
         seconds_unused = seconds_booked - seconds_into_slot
-        if seconds_unused > 0 and resource:
-            res_scenario = resource.data[self.scenarioIdx] if resource.data else None
+        # All members of a team work the same instants: release the tail for each of them
+        members = [r for r in self._lastBookedResources if r is not resource] + ([resource] if resource else [])
+        for member in members if seconds_unused > 0 else []:
+            res_scenario = member.data[self.scenarioIdx] if member.data else None
             if res_scenario:
                 # Update the per-task usage record to reflect actual usage
+                member_booked = seconds_booked
                 if self.currentSlotIdx in res_scenario.slotTaskUsage:
                     # Find and update this task's entry
                     for i, (task, _secs) in enumerate(res_scenario.slotTaskUsage[self.currentSlotIdx]):
                         if task == self.property:
-                            res_scenario.slotTaskUsage[self.currentSlotIdx][i] = (task, seconds_into_slot)
+                            member_booked = _secs
+                            res_scenario.slotTaskUsage[self.currentSlotIdx][i] = (task, min(seconds_into_slot, _secs))
                             break
 
                 # Update total slotSecondsUsed to release unused time
                 # Old value was full slot duration, new value is actual usage
                 old_total = res_scenario.slotSecondsUsed.get(self.currentSlotIdx, slot_duration_seconds)
-                # Subtract what was previously booked (full slot) and add actual usage
-                res_scenario.slotSecondsUsed[self.currentSlotIdx] = old_total - seconds_booked + seconds_into_slot
+                # Subtract what was previously booked and add actual usage
+                res_scenario.slotSecondsUsed[self.currentSlotIdx] = (
+                    old_total - member_booked + min(seconds_into_slot, member_booked)
+                )
 
         return precise_end, seconds_into_slot
 
@@ -1340,6 +1347,7 @@ class TaskScenario(ScenarioData):
         booked_any = False
         total_effort_this_slot = 0.0
         self._slotUsedBefore = 0.0
+        self._lastBookedResources = []
         for resource in resources_to_book:
             effort_gained = self.bookResource(resource)
             if effort_gained > 0:
@@ -1354,6 +1362,7 @@ class TaskScenario(ScenarioData):
                     self._lastBookedSlot = None
                 self._lastBookedResource = resource
                 self._lastBookedSlot = self.currentSlotIdx
+                self._lastBookedResources.append(resource)
 
         if booked_any:
             # For effort-based tasks, set start date on first booking
